@@ -264,12 +264,28 @@ pub fn e1_check(id: &str) -> Option<Check> {
             Check {
                 id: "C11",
                 profile: p,
-                deciding: &["O-nodes", "O-uaf", "O-acct", "O-slots", "O-total"],
+                deciding: &["O-nodes", "O-uaf", "O-acct", "O-tight", "O-slots", "O-total", "O-lin", "O-chain", "O-guard", "O-race"],
                 rule: "generations of threads (start after another thread exited, with or without hb edge), writers walking nodes while owners exit or nodes are re-claimed, operations from thread-local destructors (temporary node). Oracle: node ownership exclusive (claims/slot claims/read intents only by the owner), all nodes released at the end, in SC mode #nodes <= peak owners + acquisitions overlapping a write/exit/acquisition; all safety oracles. Non-trivial: a node was re-claimed by a later thread.",
                 nontrivial: |_, o| o.stats.node_reclaimed > 0,
                 quick: 40_000,
                 thorough: 1_500_000,
-                fixup: nofix,
+                fixup: |c| {
+                    // a third of the cases: sequential generations under interleaving semantics
+                    // (each thread starts after the previous one has exited, with a happens-before
+                    // edge, the finalizer stays idle until the end): every acquisition is
+                    // quiescent, so the space bound must hold with no allowance at all
+                    if c.spec.seed % 3 == 0 {
+                        c.spec.mode = crate::rt::Mode::SC;
+                        c.spec.stale = 0;
+                        c.spec.freeze = None;
+                        c.prog.threads[0].ops.clear();
+                        for (i, t) in c.prog.threads.iter_mut().enumerate() {
+                            t.after = if i >= 2 { Some((i as u8 - 1, true)) } else { None };
+                            t.bequeath = false;
+                            t.ops.retain(|o| !matches!(o, crate::prog::Op::SendGuard(..) | crate::prog::Op::SendHandle(..) | crate::prog::Op::Quiesce));
+                        }
+                    }
+                },
             }
         }
         "C12" => {
@@ -349,13 +365,14 @@ pub fn e1_check(id: &str) -> Option<Check> {
             p.w_panicky = 2;
             p.w_hold = 2;
             p.w_quiesce = 1;
+            p.panicky_cases = 50;
             p.modes = (1, 0, 1);
             Check {
                 id: "C18",
                 profile: p,
                 deciding: &["O-panic", "O-acct", "O-tight", "O-slots", "O-lin"],
-                rule: "one of: rcu closure panics on attempt k in 1..3 (retries forced by interference), a pointee destructor panics (wherever the last reference is released), with guards held and concurrent readers/writers. Oracle: after catch_unwind the container holds a legitimately stored identity (unchanged for rcu panics), accounting exact, slots clean, later operations linearizable. Non-trivial: an injected panic fired.",
-                nontrivial: |_, o| o.hs.panics_injected > 0 || o.hs.panics_in_writer > 0,
+                rule: "rcu closure panics on attempt k in 1..3 (retries forced by interference) and/or pointee destructors panic (wherever the last reference is released: single marked values, or in half of the cases 15/30/60% of all values), with guards held and concurrent readers/writers. Oracle: after catch_unwind the container holds a legitimately stored identity (unchanged for rcu panics), accounting exact, slots clean, later operations linearizable. Non-trivial: an injected panic fired.",
+                nontrivial: |_, o| o.hs.panics_injected > 0 || o.hs.panics_in_writer > 0 || o.hs.panics_in_load > 0 || o.hs.panics_in_harness > 0,
                 quick: 40_000,
                 thorough: 1_500_000,
                 fixup: nofix,
